@@ -65,6 +65,9 @@ pub struct Cell {
     pub peer: String,
     /// "present" | "main-missing"
     pub input: String,
+    /// how the main file is named on the command line: "absolute" | "bare" | "dot-slash" | "relative-dir"
+    /// (the working directory is chosen accordingly)
+    pub spelling: String,
 }
 
 impl Cell {
@@ -76,6 +79,7 @@ impl Cell {
             .set("target", J::s(&self.target))
             .set("peer", J::s(&self.peer))
             .set("input", J::s(&self.input))
+            .set("spelling", J::s(&self.spelling))
     }
     pub fn from_json(j: &J) -> Cell {
         Cell {
@@ -85,6 +89,7 @@ impl Cell {
             target: j.str_of("target"),
             peer: j.str_of("peer"),
             input: j.str_of("input"),
+            spelling: if j.str_of("spelling").is_empty() { "absolute".into() } else { j.str_of("spelling") },
         }
     }
     pub fn label(&self) -> String {
@@ -107,12 +112,12 @@ pub fn all_cells(req_a: &str, req_b: &str) -> Vec<Cell> {
     let flags: Vec<(Option<String>, bool)> = vec![(None, false), (Some(req_a.into()), false), (None, true), (Some(req_b.into()), true)];
     for (req, ns) in &flags {
         for peer in ["P1-ok", "P2-stderr-exit1", "P3-stderr-exit0", "P4-silent-exit1"] {
-            out.push(Cell { mode: "run".into(), require: req.clone(), no_std: *ns, target: String::new(), peer: peer.into(), input: "present".into() });
+            out.push(Cell { mode: "run".into(), require: req.clone(), no_std: *ns, target: String::new(), peer: peer.into(), input: "present".into(), spelling: "absolute".into() });
         }
         for target in ["O1-absent", "O2-existing", "O2b-existing-longer", "O3-parent-missing", "O4-is-directory", "O5-component-is-file", "O6-dev-full"] {
-            out.push(Cell { mode: "file".into(), require: req.clone(), no_std: *ns, target: target.into(), peer: String::new(), input: "present".into() });
+            out.push(Cell { mode: "file".into(), require: req.clone(), no_std: *ns, target: target.into(), peer: String::new(), input: "present".into(), spelling: "absolute".into() });
         }
-        out.push(Cell { mode: "stdout".into(), require: req.clone(), no_std: *ns, target: String::new(), peer: String::new(), input: "present".into() });
+        out.push(Cell { mode: "stdout".into(), require: req.clone(), no_std: *ns, target: String::new(), peer: String::new(), input: "present".into(), spelling: "absolute".into() });
     }
     for mode in ["run", "file", "stdout"] {
         out.push(Cell {
@@ -122,10 +127,11 @@ pub fn all_cells(req_a: &str, req_b: &str) -> Vec<Cell> {
             target: if mode == "file" { "O2-existing".into() } else { String::new() },
             peer: if mode == "run" { "P1-ok".into() } else { String::new() },
             input: "main-missing".into(),
+            spelling: "absolute".into(),
         });
     }
-    out.push(Cell { mode: "help".into(), require: None, no_std: false, target: String::new(), peer: String::new(), input: "present".into() });
-    out.push(Cell { mode: "noargs".into(), require: None, no_std: false, target: String::new(), peer: String::new(), input: "present".into() });
+    out.push(Cell { mode: "help".into(), require: None, no_std: false, target: String::new(), peer: String::new(), input: "present".into(), spelling: "absolute".into() });
+    out.push(Cell { mode: "noargs".into(), require: None, no_std: false, target: String::new(), peer: String::new(), input: "present".into(), spelling: "absolute".into() });
     out
 }
 
@@ -289,6 +295,16 @@ impl Runner {
 
     pub fn run_cell(&self, prog: &Program, cell: &Cell, root: &str, extra_env: &[(String, String)]) -> ProcObs {
         let main_real = format!("{}{}", root, prog.main.strip_prefix(SIM_ROOT).unwrap_or(&prog.main));
+        let main_path = Path::new(&main_real);
+        let main_name = main_path.file_name().map(|n| n.to_string_lossy().to_string()).unwrap_or_default();
+        let main_dir = main_path.parent().map(|p| p.display().to_string()).unwrap_or_else(|| root.to_string());
+        let main_dir_name = Path::new(&main_dir).file_name().map(|n| n.to_string_lossy().to_string()).unwrap_or_default();
+        let cwd = match cell.spelling.as_str() {
+            "bare" | "dot-slash" => main_dir.clone(),
+            "relative-dir" => Path::new(&main_dir).parent().map(|p| p.display().to_string()).unwrap_or_else(|| root.to_string()),
+            _ => root.to_string(),
+        };
+        let _ = std::fs::create_dir_all(&cwd);
         let outdir = format!("{}/out", root);
         let _ = std::fs::remove_dir_all(&outdir);
         let _ = std::fs::create_dir_all(&outdir);
@@ -346,7 +362,12 @@ impl Runner {
                     args.push(t.clone());
                     target_path = Some(t);
                 }
-                args.push(main_real.clone());
+                args.push(match cell.spelling.as_str() {
+                    "bare" => main_name.clone(),
+                    "dot-slash" => format!("./{}", main_name),
+                    "relative-dir" => format!("{}/{}", main_dir_name, main_name),
+                    _ => main_real.clone(),
+                });
             }
         }
         let mut before = BTreeMap::new();
@@ -360,7 +381,7 @@ impl Runner {
         };
         let mut cmd = Command::new("timeout");
         cmd.arg("-k").arg("5").arg("120").arg(&self.bin).args(&args);
-        cmd.current_dir(root)
+        cmd.current_dir(&cwd)
             .env_clear()
             .env("PATH", &self.path_env)
             .env("HOME", root)
@@ -877,7 +898,7 @@ pub fn run_c20(tier: &str, batch_seed: u64) -> LayerBResult {
                     a.no_std_equiv_checked += 1;
                 }
                 if let Some(vv) = nostd_violation {
-                    let cell = Cell { mode: "file".into(), require: None, no_std: true, target: "O1-absent".into(), peer: String::new(), input: "present".into() };
+                    let cell = Cell { mode: "file".into(), require: None, no_std: true, target: "O1-absent".into(), peer: String::new(), input: "present".into(), spelling: "absolute".into() };
                     let doc = layer_b_doc("C20", &vv, &prog, &cell, &ProcObs::default(), &root, batch_seed, i);
                     a.violations.entry(vv.id()).or_insert((doc, 0)).1 += 1;
                 }
@@ -955,7 +976,7 @@ pub fn replay(doc: &J, id: &str) -> i32 {
         code = replay_c16(doc, &prog, &runner, id);
     } else if prop == "C07" {
         let root = runner.layout(&prog, "p", false);
-        let cell = Cell { mode: "file".into(), require: None, no_std: lb.bool_of("no_std"), target: "O1-absent".into(), peer: String::new(), input: "present".into() };
+        let cell = Cell::from_json(lb.get("cell").unwrap_or(&J::obj()));
         let obs = runner.run_cell(&prog, &cell, &root, &[]);
         print!("{}", obs.history(&root));
         match judge_c07_process(&obs) {
@@ -1010,7 +1031,7 @@ const ENVS: &[&[(&str, &str)]] = &[
 ];
 
 fn c16_observe(runner: &Runner, prog: &Program, root: &str, rep: usize) -> String {
-    let cell = Cell { mode: "file".into(), require: None, no_std: false, target: "O1-absent".into(), peer: String::new(), input: "present".into() };
+    let cell = Cell { mode: "file".into(), require: None, no_std: false, target: "O1-absent".into(), peer: String::new(), input: "present".into(), spelling: "absolute".into() };
     let env: Vec<(String, String)> = ENVS[rep % ENVS.len()].iter().map(|(k, v)| (k.to_string(), v.to_string())).collect();
     let obs = runner.run_cell(prog, &cell, root, &env);
     let out = normalise(root, &strip_ansi(&String::from_utf8_lossy(&obs.stdout)));
@@ -1135,6 +1156,9 @@ pub fn run_c16_processes(tier: &str, batch_seed: u64) -> LayerBResult {
 
 pub fn judge_c07_process(obs: &ProcObs) -> Option<Violation> {
     let err = String::from_utf8_lossy(&obs.stderr).to_string();
+    if err.starts_with("spawn failed:") {
+        return Some(Violation { prop: "C07".into(), clause: "harness".into(), class: "spawn-failed".into(), detail: err });
+    }
     if obs.timed_out {
         return Some(Violation { prop: "C07".into(), clause: "process-hang".into(), class: "120s".into(), detail: "the sylt process did not terminate within 120 s".into() });
     }
@@ -1189,7 +1213,8 @@ pub fn run_c07_processes(tier: &str, batch_seed: u64) -> LayerBResult {
                     (Program { files, main: c.main.clone(), label: format!("{}+{}faults", sc.family, sc.faults.len()), std_free: false }, c.no_std, false)
                 };
                 let root = runner.layout(&prog, "p", false);
-                let cell = Cell { mode: "file".into(), require: None, no_std, target: "O1-absent".into(), peer: String::new(), input: "present".into() };
+                let spelling = ["absolute", "bare", "dot-slash", "relative-dir"][((i / 4 + i) % 4) as usize];
+                let cell = Cell { mode: "file".into(), require: None, no_std, target: "O1-absent".into(), peer: String::new(), input: "present".into(), spelling: spelling.into() };
                 let obs = runner.run_cell(&prog, &cell, &root, &[]);
                 let mut verdict = judge_c07_process(&obs);
                 let strict = prog.files.values().map(|t| gen::nesting_depth_strict(t)).max().unwrap_or(0);
@@ -1215,6 +1240,12 @@ pub fn run_c07_processes(tier: &str, batch_seed: u64) -> LayerBResult {
                     *r.4.entry(prog.label.split('x').nth(1).unwrap_or("?").to_string()).or_insert(0) += 1;
                 }
                 if let Some(vv) = verdict {
+                    if vv.clause == "harness" {
+                        r.3.entry("harness/spawn-failed".into()).or_insert((J::obj().set("clause", J::s("harness")).set("class", J::s("spawn-failed")).set("detail", J::s(&vv.detail)), 0)).1 += 1;
+                        drop(r);
+                        i += threads;
+                        continue;
+                    }
                     let mut doc = layer_b_doc("C07", &vv, &prog, &cell, &obs, &root, batch_seed, i);
                     if let Some(J::Obj(m)) = doc.get("layer_b").cloned() {
                         let mut lb = J::Obj(m);
